@@ -32,7 +32,7 @@ def seed_all(seed: int):
     fastrand.pcg32_seed(seed % (2**31))
 
 
-def net_config(obs_space, algo="DQN", head=16, enc=16, latent=8):
+def net_config(obs_space, algo="DQN", head=16, enc=16, latent=8, explicit_act=True):
     if isinstance(obs_space, (spaces.Dict, spaces.Tuple)):
         enc_cfg = {
             "latent_dim": 8,
@@ -46,6 +46,14 @@ def net_config(obs_space, algo="DQN", head=16, enc=16, latent=8):
         enc_cfg = {"hidden_size": [enc], "min_mlp_nodes": 8, "max_mlp_nodes": 64}
     else:
         enc_cfg = {"hidden_size": [enc], "min_mlp_nodes": 8, "max_mlp_nodes": 64}
+    if explicit_act:
+        # an encoder_config without "activation" resolves the encoder's output activation differently on
+        # first build and on clone (finding C01/faithful/encoder_output_activation...); most checks avoid that path
+        if "cnn_config" in enc_cfg:
+            enc_cfg["cnn_config"]["activation"] = "ReLU"
+            enc_cfg["mlp_config"]["activation"] = "ReLU"
+        else:
+            enc_cfg["activation"] = "ReLU"
     return {"latent_dim": latent, "encoder_config": enc_cfg,
             "head_config": {"hidden_size": [head], "min_mlp_nodes": 8, "max_mlp_nodes": 64}}
 
@@ -123,7 +131,8 @@ def build(spec, hp_config=None):
     hp = default_hp(algo)
     hp.update(spec.get("hp", {}))
     first_obs = obs[0] if isinstance(obs, list) else obs
-    kw = dict(net_config=net_config(first_obs, algo), hp_config=hp_config, index=spec.get("index", 0))
+    kw = dict(net_config=net_config(first_obs, algo, explicit_act=spec.get("netact", True)), hp_config=hp_config,
+              index=spec.get("index", 0))
     if "net" in spec:
         kw["net_config"] = copy.deepcopy(spec["net"])
     kw.update(hp)
@@ -222,7 +231,8 @@ def ma_batch(agent, spec, n, seed, dones=None):
         ac = {}
         for a, s in zip(ids, act_l):
             if isinstance(s, spaces.Discrete):
-                ac[a] = int(rng.integers(0, s.n))
+                z = rng.normal(size=(s.n,))
+                ac[a] = (np.exp(z) / np.exp(z).sum()).astype(np.float32)
             else:
                 ac[a] = sp.sample_action(s, None, rng)
         r = {a: float(rng.normal()) for a in ids}
@@ -328,12 +338,9 @@ def act_greedy(agent, spec, seed, n=3):
         a, lp, ent, v = agent.get_action(obs)
         return np.concatenate([np.asarray(a, dtype=np.float64).reshape(n, -1), np.asarray(v, dtype=np.float64).reshape(n, -1)], axis=1)
     if algo in MULTI_OFF:
-        agent.set_training_mode(False)
-        try:
-            out = agent.get_action(obs)
-        finally:
-            agent.set_training_mode(True)
-        acts = out[0] if isinstance(out, tuple) else out
+        torch.manual_seed(seed)  # discrete actors end in a Gumbel-softmax: stochastic even without exploration noise
+        cont, disc = agent.get_action(obs, training=False)
+        acts = disc if disc is not None else cont
         return np.concatenate([np.asarray(acts[a], dtype=np.float64).reshape(n, -1) for a in sorted(acts)], axis=1)
     if algo == "IPPO":
         torch.manual_seed(seed)
